@@ -52,3 +52,48 @@ macro_rules! commit_scalars_harness {
 commit_scalars_harness!(commit_scalars_respected_n1, 1, 3, [any_given()], [any_scalar()]);
 commit_scalars_harness!(commit_scalars_respected_n2, 2, 4, [any_given(), any_given()], [any_scalar(), any_scalar()]);
 commit_scalars_harness!(commit_scalars_respected_n3, 3, 5, [any_given(), any_given(), any_given()], [any_scalar(), any_scalar(), any_scalar()]);
+
+// ---- C14 stand-in for the same statement: every slot the caller leaves open (None) consumes a draw of its own.
+// The tail of Scalar::random is replaced by a stub returning the k-th tagged value, so "a draw of its own" is a
+// checkable statement about values: open-slot scalars are tagged draws, pairwise different, and different from the
+// draws used for the blinding factor and its commitment scalar.  Order of draws is not prescribed.
+static mut NDRAWS: u64 = 0;
+fn tagged(k: u64) -> Scalar { unsafe { core::mem::transmute::<[u64; 4], Scalar>([k, 0x7a67, 0, 0]) } }
+fn is_tagged(s: &Scalar) -> bool {
+    let l = unsafe { core::mem::transmute::<Scalar, [u64; 4]>(*s) };
+    l[1] == 0x7a67 && l[2] == 0 && l[3] == 0 && l[0] >= 1 && l[0] <= unsafe { NDRAWS }
+}
+fn stub_from_bytes_wide_tagged(_b: &[u8; 64]) -> Scalar { unsafe { NDRAWS += 1; tagged(NDRAWS) } }
+
+macro_rules! open_slots_harness {
+    ($name:ident, $n:literal, $unw:literal, [$($g:expr),*], [$($m:expr),*]) => {
+        #[kani::proof]
+        #[kani::unwind($unw)]
+        #[kani::stub(Message::commit, stub_commit)]
+        #[kani::stub(bls12_381::Scalar::from_bytes_wide, stub_from_bytes_wide_tagged)]
+        fn $name() {
+            let given: [Option<Scalar>; $n] = [$($g),*];
+            // caller-given scalars are not tagged values (they are the caller's business)
+            for i in 0..$n { if let Some(s) = given[i] { kani::assume(!(unsafe { core::mem::transmute::<Scalar, [u64; 4]>(s) }[1] == 0x7a67)); } }
+            let m: [Scalar; $n] = [$($m),*];
+            let params = PedersenParameters::<G1Projective, $n>::from_generators(G1Projective::identity(), [G1Projective::identity(); $n]);
+            let b = CommitmentProofBuilder::generate_proof_commitments(&mut KRng, Message::new(m), &given, &params);
+            let cs = b.conjunction_commitment_scalars();
+            for i in 0..$n {
+                if given[i].is_none() {
+                    assert!(is_tagged(&cs[i]));
+                    assert!(cs[i] != b.blinding_factor_commitment_scalar);
+                    assert!(cs[i] != b.message_blinding_factor.0);
+                    for j in 0..$n {
+                        if j != i && given[j].is_none() { assert!(cs[i] != cs[j]); }
+                    }
+                }
+            }
+            assert!(is_tagged(&b.blinding_factor_commitment_scalar) && is_tagged(&b.message_blinding_factor.0));
+            assert!(b.blinding_factor_commitment_scalar != b.message_blinding_factor.0);
+        }
+    };
+}
+open_slots_harness!(commit_open_slots_fresh_n1, 1, 3, [any_given()], [any_scalar()]);
+open_slots_harness!(commit_open_slots_fresh_n2, 2, 4, [any_given(), any_given()], [any_scalar(), any_scalar()]);
+open_slots_harness!(commit_open_slots_fresh_n3, 3, 5, [any_given(), any_given(), any_given()], [any_scalar(), any_scalar(), any_scalar()]);
